@@ -325,6 +325,8 @@ bool StepExtended(ScriptExecutionEnvironment& env, CScript::const_iterator& pc, 
     case OP_CAT:
         // (x1 x2 -- out)
         if (stack.size() < 2) return set_error(serror, SCRIPT_ERR_INVALID_STACK_OPERATION);
+        // a stack element holds at most 520 bytes (without the bound repeated OP_DUP OP_CAT doubles the element until memory runs out)
+        if (stacktop(-2).size() + stacktop(-1).size() > MAX_SCRIPT_ELEMENT_SIZE) return set_error(serror, SCRIPT_ERR_PUSH_SIZE);
         vch1 = stacktop(-2);
         vch2 = stacktop(-1);
         vch1.insert(vch1.end(), vch2.begin(), vch2.end());
